@@ -104,19 +104,19 @@ var Corpus = []CorpusEntry{
 
 // CorpusD3: for some entries, another document (of a different size) on which the path also succeeds.
 var CorpusD3 = map[string]string{
-	`$[-2:]`:   `[4,5]`,
-	`$[-3:-1]`: `[5,6,7]`,
-	`$.*`: `{"c":3,"b":2,"a":1}`,
-	`$..*`: `[{"x":{"y":1}}]`,
-	`$[0:2]`: `[7]`,
-	`$[::-1]`: `[8,9]`,
-	`$[0,1,0]`: `[5]`,
-	`$[*,*]`: `[3]`,
-	`$[0,1:2,*]`: `[4,5,6]`,
-	`$[?(@.a)]`: `{"k":{"a":1},"j":{"a":2},"i":{"a":3}}`,
-	`$[?(@.a == 1)]`: `[{"a":2},{"a":1},{"a":1}]`,
-	`$[?(@.a || @.b)]`: `[{"b":2}]`,
-	`$.*.g()`: `[9]`,
+	`$[-2:]`:               `[4,5]`,
+	`$[-3:-1]`:             `[5,6,7]`,
+	`$.*`:                  `{"c":3,"b":2,"a":1}`,
+	`$..*`:                 `[{"x":{"y":1}}]`,
+	`$[0:2]`:               `[7]`,
+	`$[::-1]`:              `[8,9]`,
+	`$[0,1,0]`:             `[5]`,
+	`$[*,*]`:               `[3]`,
+	`$[0,1:2,*]`:           `[4,5,6]`,
+	`$[?(@.a)]`:            `{"k":{"a":1},"j":{"a":2},"i":{"a":3}}`,
+	`$[?(@.a == 1)]`:       `[{"a":2},{"a":1},{"a":1}]`,
+	`$[?(@.a || @.b)]`:     `[{"b":2}]`,
+	`$.*.g()`:              `[9]`,
 	`$[?(@.*.cnt() == 2)]`: `[[3,4]]`,
 }
 
@@ -125,10 +125,10 @@ var ParseCorpus = []FnSpec{
 	{`$.a[?(@.b == 1)]`, 0},
 	{`$..['a','b'].c`, 0},
 	{`$.*.f()`, 1},
-	{`$.*.f()`, 0},        // function not found
+	{`$.*.f()`, 0}, // function not found
 	{`$[?(@.g().f() > 1)]`, 2},
 	{`$[?(@.a == @.b)]`, 0}, // two current nodes
-	{`$[(1)]`, 0},          // script
+	{`$[(1)]`, 0},           // script
 	{`$[99999999999999999999]`, 0},
 	{`$.a[`, 0},
 	{`$[?(@.* == 1)]`, 0}, // value group
